@@ -9,6 +9,7 @@ import (
 	"sort"
 	"strconv"
 	"strings"
+	"sync"
 
 	"golang.org/x/tools/go/ssa"
 )
@@ -272,13 +273,11 @@ type fieldInfo struct {
 	asString  bool
 }
 
-var fieldCache = map[*types.Struct][]fieldInfo{}
+var fieldCache sync.Map
 
 func structFields(st *types.Struct) []fieldInfo {
-	liveCache.mu.Lock()
-	defer liveCache.mu.Unlock()
-	if fi, ok := fieldCache[st]; ok {
-		return fi
+	if fi, ok := fieldCache.Load(st); ok {
+		return fi.([]fieldInfo)
 	}
 	var out []fieldInfo
 	for i := 0; i < st.NumFields(); i++ {
@@ -306,7 +305,7 @@ func structFields(st *types.Struct) []fieldInfo {
 		}
 		out = append(out, fi)
 	}
-	fieldCache[st] = out
+	fieldCache.Store(st, out)
 	return out
 }
 
